@@ -192,7 +192,7 @@ Proof.
 Qed.
 Print Assumptions C10_copy_terminates.
 
-(* regression witness for the code before COMMIT_C10_1 (no same-file check): source and destination the same
+(* regression witness for the code before 79ceadf (no same-file check): source and destination the same
    file of at least one block, read-to-end (length 0), write offset one block or more ahead: every iteration
    reads a full block that the previous iteration wrote; out of fuel for EVERY fuel, one more block written
    each time (until the disk is full), and the loop contains no await when the SFTPServer methods are the
